@@ -145,8 +145,11 @@ PARENTS = {
 CHILDREN = ["H.Sum(qy)", "H.Average(qy)", "H.Bin(2, 0.0, 2.0, qy)", "H.Bin(3, 0.0, 2.0, qy)", "H.Minimize(qy)", "H.Count()"]
 
 
-def nested(pname, tmpl, op, timeout=60):
-    mks = ", ".join("(lambda: %s)" % tmpl.format(c=c) for c in CHILDREN)
+def nested(pname, tmpl, op, what, timeout=60, nchild=6):
+    """what = 'accept': the merge is accepted iff the children are identical in structure;
+       what = 'unchanged': a rejected merge leaves both operands unchanged."""
+    CH = CHILDREN[:nchild]
+    mks = ", ".join("(lambda: %s)" % tmpl.format(c=c) for c in CH)
     setup = SETUP + f"MKS = [{mks}]\n"
     if op == "add":
         do = "r = raises(lambda: a + b)"
@@ -155,25 +158,32 @@ def nested(pname, tmpl, op, timeout=60):
 def _iadd(p, q):
     p += q
 r = raises(_iadd, a, b)"""
+    if what == "accept":
+        asserts = """
+if r is None and k1 != k2: return "merge-accepted-although-child-differs"
+if r is not None and k1 == k2: return "merge-of-identical-structure-rejected:" + str(r)
+"""
+    else:
+        asserts = """
+if r is not None:
+    if not jeq(J(a), ja): return "rejected-merge-changed-left-operand"
+    if not jeq(J(b), jb): return "rejected-merge-changed-right-operand"
+"""
     body = f"""
 mka = MKS[k1]; mkb = MKS[k2]
 with NT():
     a = mka()
     b = mkb()
-d1 = (x1, 0.25, "a", 1.0); d2 = (x2, 0.75, "a", 1.0)
+d1 = (x1, 0.25, "a", 1.0); d2 = (x2, 0.75, sel(c2, "a", "b"), 1.0)
 a.fill(d1); b.fill(d2)
 ja, jb = J(a), J(b)
 {do}
-if r is None and k1 != k2: return "merge-accepted-although-child-differs"
-if r is not None and k1 == k2: return "merge-of-identical-structure-rejected:" + str(r)
-if r is not None:
-    if not jeq(J(a), ja): return "rejected-merge-changed-left-operand"
-    if not jeq(J(b), jb): return "rejected-merge-changed-right-operand"
+{asserts}
 """
     return Harness(
-        f"C10/nested/{pname}/{op}", [("k1", "int"), ("k2", "int"), ("x1", "float"), ("x2", "float")],
-        f"0 <= k1 < {len(CHILDREN)} and 0 <= k2 < {len(CHILDREN)} and -2.0 <= x1 < 2.0 and -2.0 <= x2 < 2.0", body,
-        timeout=timeout, setup=setup, tree=tmpl, bounds=f"child of both operands chosen by symbolic selectors over {CHILDREN}; one record each, x symbolic in [-2,2)",
+        f"C10/nested/{pname}/{op}/{what}", [("k1", "int"), ("k2", "int"), ("x1", "float"), ("x2", "float"), ("c2", "int")],
+        f"0 <= k1 < {len(CH)} and 0 <= k2 < {len(CH)} and -2.0 <= x1 < 2.0 and -2.0 <= x2 < 2.0 and 0 <= c2 <= 1", body,
+        timeout=timeout, setup=setup, tree=tmpl, bounds=f"child of both operands chosen by symbolic selectors over {CH}; one record each, x symbolic in [-2,2)",
     )
 
 
@@ -190,5 +200,6 @@ def harnesses(tier):
                 out.append(structural(name, params, pre, ea, eb, equal, op, True))
     for pname, tmpl in PARENTS.items():
         for op in ("add", "iadd"):
-            out.append(nested(pname, tmpl, op, timeout=90 if tier == "quick" else 300))
+            for what in ("accept", "unchanged"):
+                out.append(nested(pname, tmpl, op, what, timeout=90 if tier == "quick" else 300, nchild=4 if tier == "quick" else 6))
     return out
